@@ -30,8 +30,9 @@ structure W where
 
 /-- externals: 100 `var.set(v)`  101 `var.reset(token)`  102 `var.get()`  103 `group.__aenter__()`
 104 `await group.__aexit__(exc)`  105 `metrics._finish()`  106 `metrics.log(…)`  107 `metrics._finished`  108 `metrics.time` -/
-def ext : World W := fun f args w =>
+def ext : World W := fun f args w fl =>
   let w := { w with log := w.log ++ [(f, args)] }
+  (fun (r : Option ((Val ⊕ Val) × W)) => r.map fun (x, w') => (x, w', fl)) <|
   match f, args with
   | 100, [v] => some (.inl (.obj w.nextTok),
       { w with var := some v, tok := fun k => if k = w.nextTok then some w.var else w.tok k, nextTok := w.nextTok + 1 })
